@@ -42,10 +42,10 @@ Record env := mkEnv {
   e_progs : list (bytes * code);           (* CelContext.progs (bytecode of each) *)
   e_ufuncs : list (bytes * ufun);          (* caller-bound functions *)
   e_runtime : bool;                        (* true: BindContext::new(); false: for_compile() *)
-  e_now : Z                                (* the clock *)
+  e_now : option Z                         (* the clock; None while compiling *)
 }.
 
-Definition empty_env : env := mkEnv false [] [] [] false 0.
+Definition empty_env : env := mkEnv false [] [] [] false None.
 
 Definition logent := (bytes * value * list value)%type.
 Definition log := list logent.             (* caller-bound function calls, most recent first *)
